@@ -6,6 +6,7 @@
    the stored-state functions of Model/State.v (borda_set_n, borda_scores_st; C18). *)
 From Coq Require Import ZArith QArith Qpower List Lia Bool.
 From VL Require Import Prelude.PyDict Prelude.PyNum Prelude.PyList Model.Convert Model.State.
+From VL Require Import Proofs.PyList_proofs.
 From VL Require Gen.Rankscore.
 Import ListNotations.
 Open Scope Q_scope.
@@ -29,12 +30,14 @@ Proof.
     rewrite <- Pos.of_nat_succ. reflexivity. }
   rewrite E. apply inv_pos.
 Qed.
+Print Assumptions tie_dowdall.
 
 Lemma tie_modified_borda n_cands n : exists l, rank_scores ModifiedBorda n_cands n = Some l /\ Forall2 Qeq (gen_list Gen.Rankscore.ModifiedBorda_score n) l.
 Proof.
   eexists. split; [reflexivity|]. unfold gen_list. apply map_seq_Qeq. intros r.
   unfold Gen.Rankscore.ModifiedBorda_score, Qminus. rewrite <- inject_Z_opp, <- inject_Z_plus. reflexivity.
 Qed.
+Print Assumptions tie_modified_borda.
 
 Lemma tie_fixed_top top n_cands n : exists l, rank_scores (FixedTop top) n_cands n = Some l /\ Forall2 Qeq (gen_list (Gen.Rankscore.FixedTop_score top) n) l.
 Proof.
@@ -46,6 +49,7 @@ Proof.
   - assert (~ (inject_Z (top + - Z.of_nat r) <= inject_Z 0)) as H by (intros H; apply Qle_bool_iff in H; change (inject_Z 0) with (0 # 1) in H; congruence).
     rewrite <- Zle_Qle in H. rewrite Z.max_l by lia. replace (top - Z.of_nat r)%Z with (top + - Z.of_nat r)%Z by lia. reflexivity.
 Qed.
+Print Assumptions tie_fixed_top.
 
 Lemma tie_geometric base n_cands n : (0 < base)%Z ->
   exists l, rank_scores (Geometric base) n_cands n = Some l /\ Forall2 Qeq (gen_list (Gen.Rankscore.Geometric_score base) n) l.
@@ -54,6 +58,7 @@ Proof.
   unfold Gen.Rankscore.Geometric_score, py_frac, py_pow.
   rewrite <- (Zpower_Qpower base (Z.of_nat r)) by lia. unfold Qdiv. rewrite Qmult_1_l. reflexivity.
 Qed.
+Print Assumptions tie_geometric.
 
 Theorem GenTie_Rankscore :
   (forall n_cands n, exists l, rank_scores Dowdall n_cands n = Some l /\ Forall2 Qeq (gen_list Gen.Rankscore.Dowdall_score n) l) /\
@@ -65,9 +70,6 @@ Print Assumptions GenTie_Rankscore.
 
 (* ================================================================ select_padded, Borda, SequenceBased
    (typed translation: list slicing / padding as list functions, Borda's stored score list) *)
-Lemma concat_repeat_singleton {A} (x : A) k : concat (repeat [x] k) = repeat x k.
-Proof. induction k as [|k IH]; [reflexivity|]. cbn. rewrite IH. reflexivity. Qed.
-
 (* the proofs below go by case analysis on the integer comparisons and linear arithmetic, not by syntactic identity, so
    that an equivalent rewrite of the source ([len(selected) < n], the padding without its guard, the Borda score as
    [base + (n - 1) - rank]) keeps them *)
@@ -91,6 +93,7 @@ Qed.
 
 Lemma tie_select_padded : forall s n, Gen.Rankscore.select_padded s (Z.of_nat n) 0 = select_padded s n.
 Proof. intros s n. rewrite gen_select_padded_spec. reflexivity. Qed.
+Print Assumptions tie_select_padded.
 
 (* Borda.set_n_candidates: the stored score list (ints in the source, injected into Q) *)
 Lemma tie_borda_set_n : forall base k,
@@ -100,11 +103,13 @@ Proof.
   intros base k. unfold Gen.Rankscore.Borda_set_n_candidates, py_range. cbv zeta.
   rewrite Nat2Z.id, !map_map. apply map_ext. intros r. f_equal; lia.
 Qed.
+Print Assumptions tie_borda_set_n.
 
 Lemma tie_borda_set_n_state : forall base k,
   b_scores (borda_set_n base k) = Some (map inject_Z (Gen.Rankscore.Borda_set_n_candidates base (Z.of_nat k))) /\
   b_n (borda_set_n base k) = Some k.
 Proof. intros base k. rewrite tie_borda_set_n. split; reflexivity. Qed.
+Print Assumptions tie_borda_set_n_state.
 
 (* Borda.scores on an initialised scorer: ValueError when more ranks than candidates, else the padded selection *)
 Definition exn_of (r : list Q + borda_err) : list Q + pyexn :=
@@ -117,6 +122,7 @@ Proof.
   destruct (Nat.ltb_spec k n); z_atoms; cbn [negb andb orb exn_of]; try lia; try reflexivity;
     f_equal; apply (tie_select_padded sc n).
 Qed.
+Print Assumptions tie_borda_scores.
 
 (* both together = the Borda scorer of the positional converter (Model/Convert.v rank_scores, C13 / C17) *)
 Lemma tie_borda : forall base n_cands n,
@@ -126,12 +132,14 @@ Proof.
   intros base n_cands n. rewrite tie_borda_scores, tie_borda_set_n. unfold borda_scores_st, rank_scores. cbn [b_n b_scores].
   destruct (Nat.ltb n_cands n); reflexivity.
 Qed.
+Print Assumptions tie_borda.
 
 Lemma tie_sequence_based : forall sq n_cands n,
   rank_scores (SequenceBased sq) n_cands n = Some (Gen.Rankscore.SequenceBased_scores sq (Z.of_nat n)).
 Proof.
   intros sq n_cands n. unfold Gen.Rankscore.SequenceBased_scores. cbn [rank_scores]. f_equal. symmetry. apply (tie_select_padded sq n).
 Qed.
+Print Assumptions tie_sequence_based.
 
 Theorem GenTie_Rankscore_lists :
   (forall s n, Gen.Rankscore.select_padded s (Z.of_nat n) 0 = select_padded s n) /\
